@@ -80,15 +80,16 @@ class Monitor(object):
         -------
 
         """
-        if self.simulation.instrument.events:
-            self.events = pd.concat([self.events,
-                                    pd.DataFrame(self.simulation.instrument.events)])
-
-        if self.simulation.scheduler.events:
-            self.events = pd.concat([self.events,
-                                    pd.DataFrame(self.simulation.scheduler.events)])
-        if self.simulation.buffer.events:
-            self.events = pd.concat([self.events,
-                                    pd.DataFrame(self.simulation.buffer.events)])
+        # The monitor drains each actor's list as it collects it: an actor
+        # that cleared its own list at the top of its loop dropped events
+        # that other processes had added earlier in the same timestep, and a
+        # list collected twice (start(runtime) collates on return, the
+        # monitor again on resume) duplicated them.
+        for actor in (self.simulation.instrument, self.simulation.scheduler,
+                      self.simulation.buffer):
+            if actor.events:
+                self.events = pd.concat([self.events,
+                                         pd.DataFrame(actor.events)])
+                actor.events = []
 
         self.events = self.events.infer_objects()
